@@ -76,6 +76,10 @@ contract(
             "n_bootstrap == max(1, rnd(bootstrap_factor * n_markers))",
             "1 <= n_bootstrap and n_bootstrap <= n_markers",
         ],
+        # the integer type chosen for the vote counts holds every possible count 0 .. iterations
+        "vote_dtype = choose_int_dtype(": [
+            "iinfo_min(vote_dtype) <= 0 and bootstrap_iteration <= iinfo_max(vote_dtype)",
+        ],
         # the subset of one iteration: that size, inside [0, n), sorted and duplicate free;
         # C06.a: with factor 1 it is arange(n), whatever the random stream
         "chosen_idx = np.sort(chosen_idx)": [
@@ -169,6 +173,9 @@ contract(
         "for i in range(vote_array.shape[0]) for k in range(len(result[2])))",
         # a row of non-negative votes stays non-negative and every leaf's votes are counted
         # in the column of its owner
+        # aggregation preserves the row sums
+        "all(rowsum(result[0], i) == rowsum(vote_array, i) for i in range(vote_array.shape[0]))",
+        "all(close(rowsum(result[1], i), rowsum(correlation_array, i)) for i in range(vote_array.shape[0]))",
         "all(implies(all(vote_array[i, jj] >= 0 for jj in range(vote_array.shape[1])), result[0][i, k] >= 0) "
         "for i in range(vote_array.shape[0]) for k in range(len(result[2])))",
         "all(implies(all(vote_array[i, jj] >= 0 for jj in range(vote_array.shape[1])) "
@@ -182,6 +189,16 @@ contract(
         "for i in range(vote_array.shape[0]) for k in range(_i))",
         "all(corr_array_agg[i, k] == rowsum(correlation_array[:, positions(reference_types, unq_types[k])], i) "
         "for i in range(vote_array.shape[0]) for k in range(_i))",
+        # row sums: the columns not yet filled are zero; the filled ones hold the votes of the
+        # leaves whose type sorts below the next one (all of them at the end)
+        "all(vote_array_agg[i, k] == 0 and corr_array_agg[i, k] == 0 "
+        "for i in range(vote_array.shape[0]) for k in range(_i, len(unq_types)))",
+        "all(implies(_i < len(unq_types), "
+        "rowsum(vote_array_agg, i) == rowsum(cols_below(vote_array, reference_types, unq_types[_i]), i) and "
+        "rowsum(corr_array_agg, i) == rowsum(cols_below(correlation_array, reference_types, unq_types[_i]), i)) "
+        "for i in range(vote_array.shape[0]))",
+        "all(implies(_i == len(unq_types), rowsum(vote_array_agg, i) == rowsum(vote_array, i) and "
+        "rowsum(corr_array_agg, i) == rowsum(correlation_array, i)) for i in range(vote_array.shape[0]))",
     ]},
 )
 
@@ -209,13 +226,13 @@ contract(
     returns='Tuple[Arr2[Int],Arr2[Real],List[Name]]',
     requires=AGG_REQ,
     ensures=[
-        # aggregation preserves the row sums (needs a double-sum exchange: not attempted by SMT)
+        # aggregation preserves the row sums (proved in the main contract; native cross-check)
         "all(rowsum(result[0], i) == rowsum(vote_array, i) for i in range(vote_array.shape[0]))",
         "all(close(rowsum(result[1], i), rowsum(correlation_array, i)) for i in range(vote_array.shape[0]))",
         "all(result[0][i, k] <= rowsum(vote_array, i) for i in range(vote_array.shape[0]) "
         "for k in range(len(result[2])))",
     ],
-    note="row-sum preservation of aggregate_votes: bounded stand-in (small-scope exhaustive)",
+    note="native cross-check of the row-sum clauses proved in the main contract (small-scope exhaustive)",
 )
 
 
@@ -259,7 +276,10 @@ contract(
         "len(result[0]) == query_gene_data.shape[0] and len(result[1]) == query_gene_data.shape[0] "
         "and len(result[2]) == query_gene_data.shape[0] and len(result[3]) == query_gene_data.shape[0]",
         "all(result[0][i] in reference_types for i in range(len(result[0])))",
-        "all(result[1][i] >= 0 for i in range(len(result[1])))",
+        # C03: the probability is a whole number of votes out of the iterations and lies in (0, 1]
+        "all(0 < result[1][i] and result[1][i] <= 1 for i in range(len(result[1])))",
+        # (whole number of votes: carried by the assertion `vote_fractions == V / bootstrap_iteration`
+        #  with the integer matrix V below, and by the bounded view choose_node#shares)
         # runners-up: equal length, at most n_assignments - 1 entries
         "all(len(result[3][i]) == len(result[3][0]) and len(result[3][i]) <= n_assignments - 1 "
         "for i in range(len(result[3])))",
@@ -287,6 +307,8 @@ contract(
             "C.shape[0] == V.shape[0] and C.shape[1] == V.shape[1]",
             "all(V[i, j] >= 0 for i in range(V.shape[0]) for j in range(V.shape[1]))",
             "1 <= n_assignments and n_assignments <= V.shape[1]",
+            # every iteration cast exactly one vote for every cell (also after aggregation)
+            "all(rowsum(V, i) == bootstrap_iteration for i in range(V.shape[0]))",
         ],
         "runners_up = [": [
             "sorted_by_votes.shape[0] == V.shape[0] and sorted_by_votes.shape[1] == n_assignments",
@@ -305,6 +327,12 @@ contract(
             # iterations, its average correlation its correlation sum over its votes
             "all(V[i, sorted_by_votes[i, 0]] >= V[i, j] for i in range(V.shape[0]) for j in range(V.shape[1]))",
             "all(result[i] == reference_types[sorted_by_votes[i, 0]] for i in range(V.shape[0]))",
+            # (the row sum is mentioned so that the lemmas about it apply to row i)
+            "all(V[i, sorted_by_votes[i, 0]] <= rowsum(V, i) and rowsum(V, i) == bootstrap_iteration "
+            "for i in range(V.shape[0]))",
+            "all(1 <= V[i, sorted_by_votes[i, 0]] or rowsum(V, i) == 0 for i in range(V.shape[0]))",
+            "all(1 <= V[i, sorted_by_votes[i, 0]] and V[i, sorted_by_votes[i, 0]] <= bootstrap_iteration "
+            "for i in range(V.shape[0]))",
             "all(vote_fractions[i, c] == V[i, sorted_by_votes[i, c]] / bootstrap_iteration "
             "for i in range(V.shape[0]) for c in range(n_assignments))",
             "all(implies(V[i, sorted_by_votes[i, c]] > 0, "
@@ -649,7 +677,7 @@ contract(
         # one answer per cell of the matrix handed in, in its row order
         "len(result[0]) == full_query_gene_data.n_cells and len(result[1]) == full_query_gene_data.n_cells "
         "and len(result[2]) == full_query_gene_data.n_cells and len(result[3]) == full_query_gene_data.n_cells",
-        "all(result[1][i] >= 0 for i in range(len(result[1])))",
+        "all(0 < result[1][i] and result[1][i] <= 1 for i in range(len(result[1])))",
         "all(len(result[3][i]) <= n_assignments - 1 for i in range(len(result[3])))",
         "all(result[3][i][c][1] == (result[3][i][c][3] > 0) "
         "for i in range(len(result[3])) for c in range(len(result[3][i])))",
